@@ -19,6 +19,7 @@ func init() {
 		family{"F-slice-alias", 3, famSliceAlias},
 		family{"F-axiom", 4, famAxiom},
 		family{"F-nested-jump", 4, famNestedJump},
+		family{"F-unify", 4, famUnify},
 	)
 }
 
@@ -427,6 +428,61 @@ func famNestedJump(g *genctx, v int) *scen {
 }`, m, L, L, L, a, inner)}
 	s.drive = func(r *rand.Rand) []Call {
 		return callsOver(r, m, [][]uint64{{0, 1, 2, L, L + 1, L*L - 1, L * L, 1000}}, 10)
+	}
+	return s
+}
+
+// facts reconciled after an if: a fact survives only if every non-terminating
+// branch holds it. Near-misses make ONE branch hold the fact twice (two
+// differently spelled guards that an I/O advance rewrites to the same fact),
+// which must not make up for the branch that does not hold it.
+func famUnify(g *genctx, v int) *scen {
+	m, f := g.n("uni"), g.n("v")
+	var sig, body string
+	switch v {
+	case 0: // safe: the use after the if is guarded again
+		sig = "dst: base.io_writer, sel: base.u32"
+		body = "    if args.sel <> 0 {\n        if args.dst.length() < 8 {\n            return nothing\n        }\n        args.dst.write_u32le_fast!(a: 0x1111_1111)\n    }\n    if args.dst.length() >= 4 {\n        args.dst.write_u32le_fast!(a: 0x2222_2222)\n    }"
+	case 1: // writer: `> 7` and `>= 8` both become `>= 4` after the fast write
+		sig = "dst: base.io_writer, sel: base.u32"
+		body = "    if args.sel <> 0 {\n        if args.dst.length() <= 7 {\n            return nothing\n        }\n        if args.dst.length() < 8 {\n            return nothing\n        }\n        args.dst.write_u32le_fast!(a: 0x1111_1111)\n    }\n    args.dst.write_u32le_fast!(a: 0x2222_2222)"
+	case 2: // reader: same through skip_u32_fast
+		sig = "src: base.io_reader, sel: base.u32"
+		body = fmt.Sprintf("    if args.sel <> 0 {\n        if args.src.length() <= 7 {\n            return nothing\n        }\n        if args.src.length() < 8 {\n            return nothing\n        }\n        this.%s = args.src.peek_u32le()\n        args.src.skip_u32_fast!(actual: 4, worst_case: 4)\n    }\n    this.%s ~mod+= args.src.peek_u32le()", f, f)
+	case 3: // three branches, the fact twice in one of them and once in another
+		sig = "dst: base.io_writer, sel: base.u32"
+		body = "    if args.sel == 1 {\n        if args.dst.length() <= 7 {\n            return nothing\n        }\n        if args.dst.length() < 8 {\n            return nothing\n        }\n        args.dst.write_u32le_fast!(a: 0x1111_1111)\n    } else if args.sel == 2 {\n        if args.dst.length() < 4 {\n            return nothing\n        }\n    } else {\n        this." + f + " = 7\n    }\n    args.dst.write_u32le_fast!(a: 0x2222_2222)"
+	}
+	s := &scen{features: []string{"if-reconcile", "io-advance-facts"}}
+	s.fields = []string{f + " : base.u32"}
+	s.methods = []string{
+		fmt.Sprintf("pub func obj.%s!(%s) {\n%s\n}", m, sig, body),
+		fmt.Sprintf("pub func obj.%s() base.u32 {\n    return this.%s\n}", g.n("getv"), f),
+	}
+	s.getters = []string{g.n("getv")}
+	s.drive = func(r *rand.Rand) []Call {
+		var out []Call
+		for _, sel := range []uint64{0, 1, 2, 3} {
+			for _, n := range []int{0, 1, 2, 3, 3, 5, 9} {
+				var io Arg
+				if v == 2 {
+					io = Arg{Kind: "reader", Reader: &ReaderOp{Append: randBytes(r, n), Close: r.Intn(2) == 0}}
+				} else {
+					io = Arg{Kind: "writer", Writer: &WriterOp{Grow: n}}
+				}
+				out = append(out, Call{Method: m, Args: []Arg{io, iarg(sel)}})
+			}
+		}
+		r.Shuffle(len(out), func(i, j int) { out[i], out[j] = out[j], out[i] })
+		// the branch that does not establish the fact, on a nearly empty buffer, first
+		for i, c := range out {
+			small := (c.Args[0].Writer != nil && c.Args[0].Writer.Grow < 4) || (c.Args[0].Reader != nil && len(c.Args[0].Reader.Append) < 4)
+			if small && (c.Args[1].Int == 0 || c.Args[1].Int == 3) {
+				out[0], out[i] = out[i], out[0]
+				break
+			}
+		}
+		return out
 	}
 	return s
 }
